@@ -18,9 +18,10 @@ def boundaries(ctx, crate):
     fh = r0.ret
     nh = ('fld', ('deref', ('p', 'self')), crate.field_index("nested::Layer", "n_hash"))
     cmp_terms = [d for d, loc in ef.branches if loc[0] == fr and d[0] == 'op' and d[1] in CMP]
-    has_north = any(d[3] == ('p', 'hash') and d[4] == fh and d[1] == 'lt' for d in cmp_terms)
+    from rules.common import is_cmp
+    has_north = any(is_cmp(d, 'lt', ('p', 'hash'), fh) for d in cmp_terms)
     south = ('op', 'sub', 'u64', nh, fh)
-    has_south = any(d[3] == ('p', 'hash') and d[4] == south and d[1] == 'ge' for d in cmp_terms)
+    has_south = any(is_cmp(d, 'ge', ('p', 'hash'), south) for d in cmp_terms)
     ctx.report(clause, fr + ":north-boundary", has_north, "from_ring: north cap iff hash < %s" % show(fh), at=bf.span, kind="N")
     ctx.report(clause, fr + ":south-boundary", has_south, "from_ring: south cap iff hash >= %s" % show(south), at=bf.span, kind="N")
     # to_ring: the equatorial branch adds first_hash_in_eqr, the south branch starts from n_hash
